@@ -8,6 +8,8 @@ import OsmoVerif.Model.DrvCLPool
 import OsmoVerif.Model.DrvSumTree
 import OsmoVerif.Model.DrvEpochs
 import OsmoVerif.Model.DrvAccum
+import OsmoVerif.Model.DrvAuth
+import OsmoVerif.Model.DrvLockup
 
 open OsmoVerif
 
@@ -17,6 +19,8 @@ structure St where
   sumtree : SumTree.Store := SumTree.initSumTree
   epochs : Epochs.State := Epochs.initEpochs
   accum : Accum.AccumState := Accum.initAccum
+  auth : Auth.State := Auth.initAuth
+  lockup : Lockup.State := Lockup.initLockup
 
 def step (st : St) (line : String) : St × String :=
   match (line.trimAscii.toString.splitOn " ").filter (· ≠ "") with
@@ -30,6 +34,8 @@ def step (st : St) (line : String) : St × String :=
   | "epochs" :: op :: args => let (e, o) := Epochs.stepEpochs st.epochs op args; ({ st with epochs := e }, o)
   | "accum" :: op :: args => let (a, o) := Accum.stepAccum st.accum op args; ({ st with accum := a }, o)
   | "clp" :: op :: args => let (c, o) := CLPool.stepCLPool st.clp op args; ({ st with clp := c }, o)
+  | "auth" :: op :: args => let (a, o) := Auth.stepAuth st.auth op args; ({ st with auth := a }, o)
+  | "lockup" :: op :: args => let (m, o) := Lockup.stepLockup st.lockup op args; ({ st with lockup := m }, o)
   | "mint" :: op :: args => let (m, o) := Mint.stepMint st.mint op args; ({ st with mint := m }, o)
   | _ => (st, "bad-op")
 
